@@ -21,7 +21,9 @@ DEFAULT_INDENT = "    "
 
 
 def split_paragraphs(text: str) -> list[str]:
-    return [p.strip() for p in re.split(r"\n{2,}", text)]
+    paragraphs = [p.strip() for p in re.split(r"\n{2,}", text)]
+    # A whitespace-only line between blank lines is not a paragraph of its own.
+    return [p for i, p in enumerate(paragraphs) if p or i in (0, len(paragraphs) - 1)]
 
 
 class Wrap(Enum):
